@@ -5,9 +5,103 @@
 namespace sim {
 namespace {
 
+// ---- exhaustive part: every call sequence up to a depth bound over a finite alphabet on a fixed schema
+json fixed_schema9()
+{
+	json ms_sub = json::array({{{"n", "k"}, {"t", "int"}, {"d", 0}}, {{"n", "kl"}, {"t", "int"}, {"fl", F_LIST}, {"dp", "{7}"}}});
+	json one_sub = json::array({{{"n", "x"}, {"t", "int"}, {"d", 1}}});
+	json opts = json::array({{{"n", "i"}, {"t", "int"}, {"d", 5}},
+				 {{"n", "s"}, {"t", "str"}, {"d", "x"}},
+				 {{"n", "il"}, {"t", "int"}, {"fl", F_LIST}, {"dp", "{1, 2}"}},
+				 {{"n", "sl"}, {"t", "str"}, {"fl", F_LIST}},
+				 {{"n", "ms"}, {"t", "sec"}, {"fl", F_MULTI | F_TITLE}, {"sub", ms_sub}},
+				 {{"n", "one"}, {"t", "sec"}, {"sub", one_sub}}});
+	return {{"opts", opts}};
+}
+
+std::vector<json> alphabet9()
+{
+	std::vector<json> a;
+	auto mk = [&](const std::string &op, const std::string &name, json extra) {
+		json s = step(0, op, 0);
+		s["name"] = name;
+		for (auto it = extra.begin(); it != extra.end(); ++it)
+			s[it.key()] = it.value();
+		a.push_back(s);
+	};
+	json in_ms0 = json::array({json::array({"ms", 0})}), in_one = json::array({json::array({"one", 0})});
+	mk("setint", "i", {{"v", 9}, {"idx", 0}});
+	mk("setint", "i", {{"v", 9}, {"idx", 1}});           // index beyond a scalar
+	mk("setstr", "s", {{"v", "y"}, {"idx", 0}});
+	mk("setint", "s", {{"v", 1}, {"idx", 0}});           // wrong type
+	mk("setint", "nosuch", {{"v", 1}, {"idx", 0}});      // unknown name
+	mk("setint", "il", {{"v", 8}, {"idx", 0}});
+	mk("osetint", "il", {{"v", 8}, {"idx", 1}});
+	mk("addlist", "il", {{"vals", json::array({3})}});
+	mk("addlist", "il", {{"vals", json::array({4, 5})}});
+	mk("setlist", "il", {{"vals", json::array({6})}});
+	mk("setlist", "il", {{"vals", json::array()}});
+	mk("setmulti", "il", {{"vals", json::array({"10", "11"})}});
+	mk("setmulti", "il", {{"vals", json::array({"10", "zz"})}}); // refused
+	mk("addlist", "sl", {{"vals", json::array({"a"})}});
+	mk("setlist", "sl", {{"vals", json::array({"b", "c"})}});
+	mk("addtsec", "ms", {{"title", "t1"}});
+	mk("addtsec", "ms", {{"title", "t2"}});
+	mk("rmtsec", "ms", {{"title", "t1"}});
+	mk("rmnsec", "ms", {{"idx", 0}});
+	mk("rmsec", "ms=t2", json::object());
+	mk("setint", "k", {{"v", 3}, {"idx", 0}, {"at", in_ms0}});
+	mk("addlist", "kl", {{"vals", json::array({9})}, {"at", in_ms0}});
+	mk("setint", "x", {{"v", 2}, {"idx", 0}, {"at", in_one}});
+	mk("addlist", "i", {{"vals", json::array({1})}});    // list call on a scalar
+	return a;
+}
+
+const uint64_t A9 = 24;
+const uint64_t ENUM9 = A9 + A9 * A9 + A9 * A9 * A9; // all sequences of length 1..3
+// start states: 0 pristine, 1 produced by an accepted parse
+const uint64_t ENUM9_TOTAL = 2 * ENUM9;
+
+json enumerated_plan(uint64_t e)
+{
+	json plan;
+	plan["schemas"] = json::array({fixed_schema9()});
+	json steps = json::array();
+	json init = step(0, "init", 0);
+	init["keep"] = 1;
+	steps.push_back(init);
+	bool parsed = e >= ENUM9;
+	if (parsed) {
+		e -= ENUM9;
+		steps.push_back(parse_step(0, 0, "buf", "i = 7\nil += {3}\nsl = {p}\nms \"t1\" { k = 1 }\nms \"t3\" { kl = {} }\none { x = 4 }\n"));
+	}
+	std::vector<json> a = alphabet9();
+	std::vector<uint64_t> seq;
+	if (e < A9)
+		seq = {e};
+	else if (e < A9 + A9 * A9) {
+		e -= A9;
+		seq = {e / A9, e % A9};
+	} else {
+		e -= A9 + A9 * A9;
+		seq = {e / (A9 * A9), (e / A9) % A9, e % A9};
+	}
+	for (uint64_t k : seq)
+		steps.push_back(a[k]);
+	plan["steps"] = steps;
+	plan["params"] = {{"clients", 1}, {"enumerated", true}};
+	plan["frozen"] = json::array({"schemas"});
+	return plan;
+}
+
 json generate(uint64_t seed, uint64_t idx, int tier)
 {
-	(void)idx;
+	// thorough: all call sequences up to depth 3 over the 24-call alphabet, from both start states (27,696 plans), then seeded
+	// histories; quick: the depth-<=2 part from the pristine state (600 plans) first
+	if (tier && idx < ENUM9_TOTAL)
+		return enumerated_plan(idx);
+	if (!tier && idx < A9 + A9 * A9)
+		return enumerated_plan(idx);
 	Rng r(seed);
 	json plan;
 	SchemaGen sg;
@@ -129,7 +223,7 @@ JudgeOut judge(const json &plan)
 			if (mo && oo && (*oo)["s"].size() == (*mo)["s"].size() && !(*mo)["s"].empty()) {
 				json &inst = (*oo)["s"].back()["cfg"];
 				(*mo)["s"].back()["cfg"] = inst;
-				std::string tkey = st["at"].dump() + "/" + name;
+				std::string tkey = (st.contains("at") ? st["at"].dump() : std::string("[]")) + "/" + name;
 				out.k.add("probe.section_instance_added");
 				if (!templates.count(tkey))
 					templates[tkey] = inst;
@@ -162,6 +256,8 @@ JudgeOut judge(const json &plan)
 	}
 	out.distinct.push_back(fnv64(hist + std::to_string(plan_fingerprint(plan))));
 	out.k.add("histories");
+	if (plan.contains("params") && plan["params"].value("enumerated", false))
+		out.k.add("enumerated_histories_depth_le_3");
 	// ---- O-solo
 	int nclients = plan.contains("params") ? plan["params"].value("clients", 1) : 1;
 	if (out.viol.empty() && nclients > 1) {
@@ -200,7 +296,9 @@ Property P = [] {
 	p.rule = "seeded schemas (scalars, lists, nested single / multi / titled sections, no-default options; no callbacks) and histories of 3-30 API calls over the alphabet {typed "
 		 "setters by name and by option with index, list set/append, bulk string set, titled-section add, remove by index / title / path, annotation, set-from-text, getters, "
 		 "deliberately illegal calls (wrong type, unknown name, index beyond a scalar)} from the pristine state or from a state produced by an accepted parse, for 1 or 2 "
-		 "interleaved clients; every call is stepped against the abstract store; distinct = distinct (history, schema) pairs";
+		 "interleaved clients; every call is stepped against the abstract store; before the seeded part ALL call sequences of length 1..3 over a fixed 24-call alphabet on a fixed "
+		 "schema are enumerated, from the pristine state and from a parsed state (27,696 plans, thorough tier; the 600 sequences of length <= 2 from the pristine state in the quick "
+		 "tier); distinct = distinct (history, schema) pairs";
 	p.assumptions = {"M-store rules come from the statement; where it is silent the call is a don't-care and the model is re-synchronised from the observation: indexed setter on a list still "
 			 "holding pristine defaults or at/beyond its end, bulk set of several values on a scalar, titled add on non-(multi+title) sections, set-from-text, annotation, parse, "
 			 "quoted/multi-step remove paths, and whether an empty list set/append sets the modified flag",
